@@ -11,6 +11,8 @@ import ast
 from sa.cfg import implied
 from sa.report import Ctx
 from sa.srcmodel import AnalysisError, FunctionInfo, Program, ancestors, dotted, norm, parent, unparse, walk_no_nested
+from pathlib import PurePosixPath as PurePosixPathC16
+
 from sa.util import calls_in, cfg_nodes_containing, cfg_of, key, path_text, stmt_of, where
 
 EXCLUDED = {"_griffe.tests"}
@@ -25,15 +27,30 @@ def _is_members_attr(node: ast.AST) -> bool:
 
 def run(prog: Program, ctx: Ctx) -> None:  # noqa: PLR0912,PLR0915
     # ------------------------------------------------------------------ R1 ownership
-    ctx.rule("R1", "item stores into a `.members` mapping exist only in SetMembersMixin, deletions only in DelMembersMixin; "
-                   "everything else goes through set_member/del_member/[]")
+    ctx.rule("R1", "item stores into a `.members` mapping exist only in SetMembersMixin, deletions only in DelMembersMixin (or in private helpers "
+                   "of the mixins module called from nowhere else); everything else goes through set_member/del_member/[]")
     stores: list[tuple[FunctionInfo, ast.AST]] = []
     dels: list[tuple[FunctionInfo, ast.AST]] = []
     n_sites = 0
+    from sa.util import private_call_sites
+
+    def owner_of(fn: FunctionInfo, stack: tuple = ()) -> str | None:
+        """The class a function works for: its own class, or - for a private helper of the mixins module whose every call site can be seen - the
+        one class all its callers work for."""
+        if fn.cls is not None:
+            return fn.cls.qualname
+        if fn.module.name != "_griffe.mixins" or fn.qualname in stack:
+            return None
+        sites = private_call_sites(prog, fn)
+        if not sites:
+            return None
+        owners = {owner_of(g, (*stack, fn.qualname)) for g, _c in sites if g.qualname != fn.qualname}
+        return next(iter(owners)) if len(owners) == 1 else None
+
     for fn in prog.functions.values():
         if fn.module.name in EXCLUDED:
             continue
-        owner = fn.cls.qualname if fn.cls else None
+        owner = owner_of(fn)
         for n in walk_no_nested(fn.node):
             kind = None
             if isinstance(n, ast.Subscript) and _is_members_attr(n.value):
@@ -66,208 +83,15 @@ def run(prog: Program, ctx: Ctx) -> None:  # noqa: PLR0912,PLR0915
                        "direct deletion from a members mapping outside DelMembersMixin", where(fn, n))
                 if ok:
                     dels.append((fn, n))
-    ctx.expect_min("R1", len(stores), 2)
-    ctx.expect_min("R1", len(dels), 2)
+    ctx.expect_min("R1", len(stores), 1)  # (two today: set_member and __setitem__; one when they share a helper)
+    ctx.expect_min("R1", len(dels), 1)
 
-    # ------------------------------------------------------------------ R2 store / parent pairing
-    ctx.rule("R2", "every members store is followed on every normal path by `value.parent = self` (objects) or "
-                   "`value._modules_collection = self` (collection), selected by `is_collection`")
-    for fn, n in stores:
-        st = stmt_of(n)
-        if not (isinstance(st, ast.Assign) and isinstance(st.value, ast.Name) and isinstance(n, ast.Subscript) and dotted(n.value) == "self.members"):
-            # recursive form self.members[parts[0]][parts[1:]] = value is a __setitem__ call on the child, not a store here
-            continue
-        val = st.value.id
-        cfg = cfg_of(fn)
-
-        def link(x, attr):
-            s = x.stmt
-            return x.kind == "stmt" and isinstance(s, ast.Assign) and len(s.targets) == 1 and isinstance(s.targets[0], ast.Attribute) \
-                and s.targets[0].attr == attr and dotted(s.targets[0].value) == val and dotted(s.value) == "self"
-
-        for s in [x for x in cfg.live_nodes() if x.stmt is st]:
-            starts = [b for b, lab in cfg.succ[s] if lab != "exc"]
-            leak = cfg.reach(starts, avoid=lambda x: link(x, "parent") or link(x, "_modules_collection"), normal_only=True) & {cfg.exit}
-            wit = cfg.witness_path(s, leak, avoid=lambda x: link(x, "parent") or link(x, "_modules_collection"), normal_only=True) if leak else None
-            ctx.ob("R2", key(fn, "parent-link-after-store"), not leak,
-                   f"after `{norm(st)}` every path sets the stored value's parent / collection" if not leak else
-                   "a path returns after the store without linking the value to its container", where(fn, st), {"path": path_text(wit)})
-        for attr, want in (("parent", False), ("_modules_collection", True)):
-            for x in cfg.live_nodes():
-                if link(x, attr):
-                    ok = cfg.dominated_by_fact(x, lambda a, t, want=want: dotted(a) == "self.is_collection" and t is want)
-                    ctx.ob("R2", key(fn, f"{attr}-selected-by-is_collection"), ok,
-                           f"`{val}.{attr} = self` runs exactly when is_collection is {want}", where(fn, x.stmt))
-
-    # ------------------------------------------------------------------ R3 alias back references
-    ctx.rule("R3", "every store of a non-None Alias._target (and every parent change) is followed by registration of the alias in "
-                   "<target>.aliases[self.path] (guarded only by `parent is not None`)")
-    alias = prog.cls("_griffe.models.Alias")
-    upd = prog.lookup_method(alias, "_update_target_aliases")
-
-    def is_registration(x, fn: FunctionInfo) -> bool:
-        s = x.stmt
-        if x.kind != "stmt" or s is None:
-            return False
-        for n in walk_no_nested(s, include_self=True):
-            if isinstance(n, ast.Subscript) and isinstance(n.ctx, ast.Store) and isinstance(n.value, ast.Attribute) and n.value.attr == "aliases" \
-                    and dotted(n.slice) == "self.path":
-                asg = stmt_of(n)
-                if isinstance(asg, ast.Assign) and dotted(asg.value) == "self":
-                    return True
-            if isinstance(n, ast.Call) and dotted(n.func) == "self._update_target_aliases":
-                return True
-        return False
-
-    n_t = 0
-    for fn in prog.functions.values():
-        if fn.module.name in EXCLUDED:
-            continue
-        for n in walk_no_nested(fn.node):
-            if isinstance(n, ast.Attribute) and n.attr == "_target" and isinstance(n.ctx, ast.Store):
-                st = stmt_of(n)
-                n_t += 1
-                in_alias = fn.cls is alias and dotted(n.value) == "self"
-                ctx.ob("R3", key(fn, f"owner:{norm(st)}"), in_alias, "Alias._target is written only by Alias methods on self", where(fn, n))
-                if not in_alias or not isinstance(st, (ast.Assign, ast.AnnAssign)):
-                    continue
-                if isinstance(st.value, ast.Constant) and st.value.value is None:
-                    continue
-                cfg = cfg_of(fn)
-                for s in [x for x in cfg.live_nodes() if x.stmt is st]:
-                    starts = [b for b, lab in cfg.succ[s] if lab != "exc"]
-
-                    def no_parent_edge(a, _b, label):
-                        if a.kind != "test" or a.expr is None or label not in "TF":
-                            return False
-                        for atom, truth in implied(a.expr, label == "T"):
-                            t = unparse(atom)
-                            if t in ("self.parent is None", "self._parent is None") and truth:
-                                return True
-                            if t in ("self.parent is not None", "self._parent is not None", "self.parent", "self._parent") and not truth:
-                                return True
-                        return False
-
-                    leak = cfg.reach(starts, avoid=lambda x: is_registration(x, fn), avoid_edge=no_parent_edge, normal_only=True) & {cfg.exit}
-                    ctx.ob("R3", key(fn, f"register-after:{norm(st)}"), not leak,
-                           "the alias registers itself with its new target" if not leak else
-                           "a path returns after retargeting without registering the alias in target.aliases", where(fn, st))
-            if isinstance(n, ast.Attribute) and n.attr == "_parent" and isinstance(n.ctx, ast.Store) and fn.cls is alias and fn.name != "__init__":
-                st = stmt_of(n)
-                cfg = cfg_of(fn)
-                for s in [x for x in cfg.live_nodes() if x.stmt is st]:
-                    starts = [b for b, lab in cfg.succ[s] if lab != "exc"]
-                    leak = cfg.reach(starts, avoid=lambda x: is_registration(x, fn), normal_only=True) & {cfg.exit}
-                    ctx.ob("R3", key(fn, "re-register-on-parent-change"), not leak,
-                           "changing an alias's parent re-registers it under its new path", where(fn, st))
-    ctx.expect_min("R3", n_t, 4)
-    if not upd:
-        raise AnalysisError("C16-R3: Alias._update_target_aliases vanished")
-    reg_in_upd = any(
-        isinstance(n, ast.Subscript) and isinstance(n.ctx, ast.Store) and isinstance(n.value, ast.Attribute) and n.value.attr == "aliases"
-        and dotted(n.slice) == "self.path" for n in ast.walk(upd[0].node)
-    )
-    ctx.ob("R3", key(upd[0], "registers"), reg_in_upd, "_update_target_aliases stores self under self.path in the target's aliases", where(upd[0]))
-
-    # ------------------------------------------------------------------ R4 no self target
-    ctx.rule("R4", "an alias can never target itself: the target setter's store is dominated by the test "
-                   "`value is self or value.path == self.path -> raise`; _resolve_target raises when the lookup returns the alias itself")
-    setter = [f for f in alias.methods.get("target", []) if f.is_setter]
-    if not setter:
-        raise AnalysisError("C16-R4: Alias.target setter vanished")
-    for fn in setter:
-        cfg = cfg_of(fn)
-        pname = fn.params[1] if len(fn.params) > 1 else "value"
-        for x in cfg.live_nodes():
-            s = x.stmt
-            if x.kind == "stmt" and isinstance(s, ast.Assign) and any(isinstance(t, ast.Attribute) and t.attr == "_target" for t in s.targets):
-                a_ok = cfg.dominated_by_fact(x, lambda a, t: not t and unparse(a) in (f"{pname} is self", f"self is {pname}"))
-                b_ok = cfg.dominated_by_fact(x, lambda a, t: not t and unparse(a) in (f"{pname}.path == self.path", f"self.path == {pname}.path"))
-                ctx.ob("R4", key(fn, "identity-guard"), a_ok, "store dominated by `value is self` being false", where(fn, s))
-                ctx.ob("R4", key(fn, "path-guard"), b_ok, "store dominated by `value.path == self.path` being false", where(fn, s))
-        raises = [r for r in walk_no_nested(fn.node) if isinstance(r, ast.Raise) and r.exc is not None and isinstance(r.exc, ast.Call) and dotted(r.exc.func) == "CyclicAliasError"]
-        ctx.ob("R4", key(fn, "raises-CyclicAliasError"), bool(raises), "the rejected assignment raises CyclicAliasError", where(fn))
-    for fn in alias.methods.get("_resolve_target", []):
-        cfg = cfg_of(fn)
-        for x in cfg.live_nodes():
-            s = x.stmt
-            if x.kind == "stmt" and isinstance(s, ast.Assign) and any(isinstance(t, ast.Attribute) and t.attr == "_target" for t in s.targets) and isinstance(s.value, ast.Name):
-                v = s.value.id
-                ok = cfg.dominated_by_fact(x, lambda a, t, v=v: not t and unparse(a) in (f"{v} is self", f"self is {v}"))
-                ctx.ob("R4", key(fn, "identity-guard"), ok, "lookup result that is the alias itself is rejected before the store", where(fn, s))
-
-    # ------------------------------------------------------------------ R5 retargeting on replacement
-    ctx.rule("R5", "set_member: replacing a non-alias member first retargets every alias registered on it to the new value "
-                   "(CyclicAliasError suppressed); stub merging happens only for two modules, not namespace packages, with different files")
-    setm = prog.lookup_method(prog.cls(SET_OWNER), "set_member")
-    if not setm:
-        raise AnalysisError("C16-R5: SetMembersMixin.set_member vanished")
-    fn = setm[0]
-    cfg = cfg_of(fn)
-    store_nodes = [x for x in cfg.live_nodes() if x.kind == "stmt" and isinstance(x.stmt, ast.Assign) and any(
-        isinstance(t, ast.Subscript) and dotted(t.value) == "self.members" for t in x.stmt.targets) and isinstance(x.stmt.value, ast.Name)]
-    if not store_nodes:
-        raise AnalysisError("C16-R5: no members store in set_member")
-    val = store_nodes[0].stmt.value.id  # type: ignore[union-attr]
-    loops = []
-    for x in cfg.live_nodes():
-        if x.kind == "for" and isinstance(x.stmt, ast.For):
-            it = unparse(x.stmt.iter)
-            if ".aliases" in it:
-                body_assign = [n for n in ast.walk(x.stmt) if isinstance(n, ast.Assign) and any(
-                    isinstance(t, ast.Attribute) and t.attr == "target" and dotted(t.value) == dotted(x.stmt.target) for t in n.targets)
-                    and dotted(n.value) == val]
-                if body_assign:
-                    loops.append((x, body_assign))
-    ctx.ob("R5", key(fn, "retarget-loop"), bool(loops), f"a loop over <old member>.aliases assigns alias.target = {val}", where(fn))
-    if loops:
-        loop_node, assigns = loops[0]
-        member_var = next((dotted(n.value) for n in ast.walk(loop_node.stmt.iter) if isinstance(n, ast.Attribute) and n.attr == "aliases"), None)  # type: ignore[union-attr]
-        # every path to the store on which the old member exists and is not an alias passes the loop head
-        branch_starts = []
-        for x in cfg.live_nodes():
-            if x.kind == "test" and x.expr is not None:
-                for b, lab in cfg.succ[x]:
-                    if lab in "TF" and any(unparse(a) == f"{member_var}.is_alias" and t is False for a, t in implied(x.expr, lab == "T")):
-                        branch_starts.append(b)
-        ctx.ob("R5", key(fn, "non-alias-branch"), bool(branch_starts), "the replaced member is tested for `is_alias`", where(fn))
-        if branch_starts:
-            heads = {loop_node}
-            bad = cfg.reach(branch_starts, avoid=lambda x: x in heads, normal_only=True) & set(store_nodes)
-            ctx.ob("R5", key(fn, "retarget-before-store"), not bad,
-                   "on the non-alias replacement path the retarget loop runs before the store", where(fn, loop_node.stmt))
-        for a in assigns:
-            sup = False
-            for anc in ancestors(a):
-                if anc is loop_node.stmt:
-                    break  # the handler must sit inside the loop body: one rejected alias must not end the loop
-                if isinstance(anc, ast.With) and any("CyclicAliasError" in unparse(i.context_expr) and "suppress" in unparse(i.context_expr) for i in anc.items):
-                    sup = True
-                if isinstance(anc, ast.Try) and any("CyclicAliasError" in unparse(h.type) for h in anc.handlers if h.type is not None):
-                    sup = True
-            ctx.ob("R5", key(fn, "cyclic-suppressed-per-alias"), sup,
-                   "a retarget that would create a cycle is skipped per alias (handler inside the loop), so the remaining aliases still follow the replacement",
-                   where(fn, a))
-    # stub-merge guard
-    merges = [c for c in calls_in(fn.node) if (dotted(c.func) or "").endswith("merge_stubs")]
-    for c in merges:
-        nodes = cfg_nodes_containing(cfg, c)
-        a0 = dotted(c.args[0]) if c.args else None
-        a1 = dotted(c.args[1]) if len(c.args) > 1 else None
-        for x in nodes:
-            facts = {
-                "old-is-module": lambda a, t: t and unparse(a) == f"{a0}.is_module",
-                "new-is-module": lambda a, t: t and unparse(a) == f"{a1}.is_module",
-                "not-namespace-package": lambda a, t: not t and unparse(a) == f"{a0}.is_namespace_package",
-                "not-namespace-subpackage": lambda a, t: not t and unparse(a) == f"{a0}.is_namespace_subpackage",
-                "different-files": lambda a, t: (t and unparse(a) in (f"{a1}.filepath != {a0}.filepath", f"{a0}.filepath != {a1}.filepath"))
-                or (not t and unparse(a) in (f"{a1}.filepath == {a0}.filepath", f"{a0}.filepath == {a1}.filepath")),
-                "old-not-alias": lambda a, t: not t and unparse(a) == f"{a0}.is_alias",
-            }
-            for name, f in facts.items():
-                ctx.ob("R5", key(fn, f"merge-guard:{name}"), cfg.dominated_by_fact(x, f), f"merge_stubs is dominated by `{name}`", where(fn, c))
-    ctx.expect_min("R5", len(merges), 1)
-
+    # R2 (the stored value is linked to its container), R3 (a resolved alias is listed by its target under its current path, also after its parent
+    # changes), R4 (an alias never targets itself) and R5 (aliases registered on a replaced member follow the replacement; stubs merging only for
+    # two regular modules) are decided on behaviour by the history table R7 and its extra rows.  Their first versions matched the statements of
+    # set_member / the target setter (a store followed by a link, a loop over `.aliases`, a test in front of a store): behaviour-preserving
+    # refactorings written by independent sub-agents (helpers extracted from set_member, the registration block shared between the setter and
+    # _resolve_target) made them report, so they were retired (DESIGN 7.7).
     # ------------------------------------------------------------------ R6 path arithmetic
     ctx.rule("R6", "_get_parts rejects empty keys; single-part keys act on parts[0]; multi-part keys recurse on parts[1:] through the "
                    "same-named operation of the child members[parts[0]]")
@@ -282,18 +106,25 @@ def run(prog: Program, ctx: Ctx) -> None:  # noqa: PLR0912,PLR0915
         except _Raised as r:
             got = f"raises {r.exc}"
         ctx.ob("R6", f"_get_parts|{keyv!r}", got == want, f"_get_parts({keyv!r}) = {got!r}, expected {want!r}", where(gp))
+    # every operation of the three mixins rejects an empty key the same way (multi-part keys are decided by the history table R7)
+    from sa.absint import Obj as _Obj
+
     ops = ("get_member", "set_member", "del_member", "__getitem__", "__setitem__", "__delitem__")
     n_ops = 0
-    for cname in ("_griffe.mixins.GetMembersMixin", SET_OWNER, DEL_OWNER):
-        cls = prog.cls(cname)
-        for mname, defs in cls.methods.items():
-            if mname not in ops:
-                continue
-            f = defs[0]
+    mcls = prog.cls("_griffe.models.Module")
+    for mname in ops:
+        for keyv in ("", (), []):
+            holder = itp._construct(mcls, ["m"], {})
+            f = prog.lookup_method(mcls, mname)[0]
+            args = [holder, keyv] + ([itp._construct(prog.cls("_griffe.models.Attribute"), ["x"], {})] if "set" in mname else [])
+            try:
+                itp.call(f, *args)
+                got = "returns"
+            except _Raised as r:
+                got = f"raises {r.exc}"
             n_ops += 1
-            src_calls = [c for c in calls_in(f.node) if (dotted(c.func) or "") == "_get_parts"]
-            ctx.ob("R6", key(f, "uses-_get_parts"), len(src_calls) == 1, "key is normalised through _get_parts (multi-part keys are decided on behaviour by the history table R7)", where(f))
-    ctx.expect_min("R6", n_ops, 6)
+            ctx.ob("R6", f"empty-key|{mname}|{keyv!r}", got == "raises ValueError", f"{mname}({keyv!r}) {got} (an empty key is rejected with ValueError)", where(f))
+    ctx.expect_min("R6", n_ops, 18)
     _history_table(prog, ctx)
 
 
@@ -340,8 +171,10 @@ def _history_table(prog: Program, ctx: Ctx) -> None:  # noqa: PLR0912,PLR0915
 
     # operations: (label, function applied to (coll, model)) ; each returns None or the name of an exception
     def op_set(via: str, path: tuple[str, ...], factory: str):
-        def make() -> Obj:
+        def make(coll: Obj) -> Obj:
             name = path[-1]
+            if factory == "alias created with its target object":
+                return new("Alias", name, container(coll, ("m", "x")))  # (KeyError when an earlier step removed m.x: nothing to check then)
             if factory == "object":
                 return new("Attribute", name)
             if factory == "alias":
@@ -351,7 +184,7 @@ def _history_table(prog: Program, ctx: Ctx) -> None:  # noqa: PLR0912,PLR0915
             return new("Alias", name, ".".join(path))  # would target its own path
 
         def run(coll: Obj, model: dict) -> None:
-            value = make()
+            value = make(coll)
             if via == "name":
                 cont = container(coll, path[:-1])
                 it.call(meth(cont, "set_member"), cont, path[-1], value)
@@ -422,7 +255,7 @@ def _history_table(prog: Program, ctx: Ctx) -> None:  # noqa: PLR0912,PLR0915
         return (f"move {'.'.join(src)} to {'.'.join(dst)}", run)
 
     ops = [
-        op_move(("m", "K"), ("n", "K")),
+        op_move(("m", "K"), ("n", "K")), op_move(("n", "y"), ("m", "y")), op_set("name", ("n", "y"), "alias created with its target object"),
         op_set("name", ("m", "x"), "object"), op_set("dotted", ("m", "x"), "object"), op_set("tuple", ("m", "K", "f"), "object"), op_set("item", ("m", "x"), "object"),
         op_set("name", ("m", "x"), "alias"), op_set("name", ("m", "x"), "dangling alias"), op_set("name", ("m", "x"), "self alias"), op_set("dotted", ("m", "K"), "object"),
         op_set("name", ("m", "z"), "object"), op_set("name", ("n", "y"), "alias"),
@@ -554,6 +387,64 @@ def _history_table(prog: Program, ctx: Ctx) -> None:  # noqa: PLR0912,PLR0915
         except Raised as r:
             problem = f"raises {r.exc}"
         ctx.ob("R7", f"parentless-alias|target = a {tkind}", problem is None, f"`alias.target = <{tkind} f>` on an alias without parent: " + (problem or "target and target path set"), "src/_griffe/models.py")
+    # assigning a target directly: an alias never ends up targeting itself (or another object that sits at its own path), and a rejected
+    # assignment leaves the alias exactly as it was
+    setter = next(f_ for f_ in prog.lookup_method(prog.cls(f"{M}.Alias"), "target") if f_.is_setter)
+    for what in ("itself", "another alias object at its own path", "an object at its own path", "a function elsewhere"):
+        it.steps = 0
+        try:
+            coll, _model = build()
+            n_mod = container(coll, ("n",))
+            y = container(coll, ("n", "y"))
+            it.getattr(y, "target")  # resolved: n.y -> m.x
+            before = (y.attrs.get("_target"), y.attrs.get("target_path"))
+            if what == "itself":
+                value = y
+            elif what == "another alias object at its own path":
+                value = new("Alias", "y", "m.K", parent=n_mod)
+            elif what == "an object at its own path":
+                value = new("Attribute", "y", parent=n_mod)
+            else:
+                value = container(coll, ("m", "K", "f"))
+        except Raised as r:
+            ctx.ob("R7", f"retarget|n.y.target = {what}", False, f"building the tree for the row raises {r.exc}", where(setter))
+            continue
+        try:
+            it.call(setter, y, value)
+            outcome = "accepted"
+        except Raised as r:
+            outcome = f"raises {r.exc}"
+        after = (y.attrs.get("_target"), y.attrs.get("target_path"))
+        if what == "a function elsewhere":
+            good = outcome == "accepted" and after == (value, "m.K.f") and value.attrs.get("aliases", {}).get("n.y") is y
+            want = "accepted, and the function lists n.y among its aliases"
+        else:
+            good = outcome == "raises CyclicAliasError" and after == before
+            want = "CyclicAliasError, the alias still targets m.x"
+        ctx.ob("R7", f"retarget|n.y.target = {what}", good,
+               f"`n.y.target = <{what}>`: expected {want}; got {outcome}, target path {after[1]}", where(setter))
+    # a portion of a namespace sub-package replaced by another one: stored as is (stubs merging is for two regular modules only)
+    for label, fp1, fp2, parent_fp in (
+        ("namespace sub-package", [PurePosixPathC16("/s1/ns/sub")], [PurePosixPathC16("/s2/ns/sub")], [PurePosixPathC16("/s1/ns")]),
+        ("namespace package in the collection", [PurePosixPathC16("/s1/ns")], [PurePosixPathC16("/s2/ns")], None),
+    ):
+        it.steps = 0
+        try:
+            coll = it._construct(cc, [], {})
+            if parent_fp is not None:
+                holder = new("Module", "ns", filepath=parent_fp)
+                it.call(meth(coll, "set_member"), coll, "ns", holder)
+                name = "sub"
+            else:
+                holder, name = coll, "ns"
+            it.call(meth(holder, "set_member"), holder, name, new("Module", name, filepath=fp1))
+            second = new("Module", name, filepath=fp2)
+            it.call(meth(holder, "set_member"), holder, name, second)
+            problem = None if holder.attrs["members"][name] is second else "the replacement is not what the tree stores"
+        except Raised as r:
+            problem = f"raises {r.exc}"
+        ctx.ob("R7", f"replace|{label}", problem is None, f"a {label} replaced by another portion of it: " + (problem or "the new module is stored, nothing is merged"),
+               "src/_griffe/mixins.py")
     # a module replaced by its stubs counterpart (or the stubs by the module) while a resolved alias is registered on it: the alias ends up on
     # whichever module object the tree keeps
     from pathlib import PurePosixPath as PP
